@@ -217,6 +217,23 @@ theorem narrow_product_counterexample :
     ∧ mOffsetNarrow ITy.u32 [5, 0, 3, 2, 0, 1] (strides [8, 1, 1024, 1024, 1, 1024]) = some 1076889601
     ∧ mOffset [5, 0, 3, 2, 0, 1] (strides [8, 1, 1024, 1024, 1, 1024]) = 5371856897 := by decide
 
+/-- KNOWN FINDING strides.narrow-element-type (replayed on the real headers): the hypothesis of `mStrides_exact` is
+    needed — `index::stride` forms the suffix product in the element type of the shape container, so with `uint32_t`
+    extents (2,65537,65537) (every extent fits, 2^33 elements) the leading stride wraps, strides are not the products of
+    the trailing extents and the offset → multi-index map is wrong ((1,0,0) has offset 4295098369). -/
+theorem mStrides_unsigned_wrap_counterexample :
+    mStrides ITy.u32 [2, 65537, 65537] = some [131073, 65537, 1]
+    ∧ strides [2, 65537, 65537] = [4295098369, 65537, 1]
+    ∧ (∀ x ∈ [2, 65537, 65537], ITy.u32.Fits x)
+    ∧ mNdindex ITy.u32 [2, 65537, 65537] 4295098369 = some [0, 0, 0]
+    ∧ ndindex [2, 65537, 65537] 4295098369 = [1, 0, 0] := by decide
+
+/-- same class: a wrapped stride of 0 makes the two-argument `compute_indices` divide by zero, and with a signed element
+    type the product overflows (undefined behaviour) -/
+theorem mStrides_ub_counterexample :
+    mStrides ITy.u32 [2, 65536, 65536] = some [0, 65536, 1] ∧ mNdindex ITy.u32 [2, 65536, 65536] 5 = none
+    ∧ mStrides ITy.i32 [2, 65536, 65536] = none := by decide
+
 /-! non-vacuity of the machine-width hypotheses: `int` containers, more than 2^31 elements -/
 example : Pos [3, 1073741824] ∧ ITy.i32.Fits (prod [3, 1073741824].tail) ∧ (∀ x ∈ [3, 1073741824], ITy.i32.Fits x)
     ∧ ¬ ITy.i32.Fits (prod [3, 1073741824]) ∧ InShape [2, 5] [3, 1073741824] ∧ prod [3, 1073741824] ≤ SZ := by decide
